@@ -595,6 +595,49 @@ def stdlib_cycles(chk):
                 if shape != 'self' and out.replace(' ', '').replace('\n', '').count('7,8') < (2 if shape == 'via-list' else 1):
                     chk.violation('C13.unfold', 'the shared acyclic list is not printed in full at each occurrence: %r' % (out,), desc)
                 chk.nontrivial(('stdlib-cycle', name, shape, width))
+    # containers whose printers are registered BY NAME (promoted on first use): mappingproxy, functools.partial, a
+    # user class registered as 'module.Name' - the cycle is cut at them like at any other container
+    import functools
+    d_ = {'n': 1}
+    mp = types.MappingProxyType(d_)
+    d_['mp'] = mp
+    lst = []
+    part = functools.partial(len, lst)
+    lst.append(part)
+
+    class ByName:
+        def __init__(self):
+            self.items = []
+    ByName.__module__ = 'verif_byname_%d' % id(chk)
+    ByName.__qualname__ = 'ByName'
+    P.register_pretty(ByName.__module__ + '.ByName')(lambda v, ctx: P.pretty_call(ctx, ByName, *v.items))
+    bn = ByName()
+    bn.items.append([bn])
+    lazy = [('mappingproxy', mp, [('mappingproxy', id(mp))]), ('mappingproxy-in-list', [mp, 0], [('mappingproxy', id(mp))]),
+            ('partial', part, [('partial', id(part))]), ('partial-root-list', lst, [('list', id(lst))]),
+            ('by-name class', bn, [('ByName', id(bn))]), ('by-name class in dict', {'k': bn}, [('ByName', id(bn))])]
+    for name, root, expect in lazy:
+        for width in (79, 1):
+            n += 1
+            desc = {'container': name, 'width': width}
+            try:
+                with warnings.catch_warnings(record=True) as wl:
+                    warnings.simplefilter('always')
+                    with common.time_limit(20):
+                        out = P.pformat(root, width=width)
+                        out2 = P.pformat(root, width=width)
+            except (Exception, common.Timeout, RecursionError) as e:  # noqa
+                chk.violation('C13.terminates', 'printing a cycle through a %s raised / did not terminate: %r' % (name, e), desc)
+                continue
+            got = [(a, int(b)) for a, b in marker.findall(out)]
+            if got != expect:
+                chk.violation('C13.unfold', 'cycle through %s: markers %r, expected exactly %r: %r' % (name, got, expect, out),
+                              dict(desc, output=out))
+            if out2 != out:
+                chk.violation('C13.repeat', 'second print of the cyclic %s differs: %r vs %r' % (name, out, out2), desc)
+            chk.nontrivial(('lazy-cycle', name, width))
+    PP._DEFERRED_DISPATCH_BY_NAME.pop(ByName.__module__ + '.ByName', None)
+    registry_cleanup(ByName)
     chk.cov['evaluations'] += 2 * n
     chk.stage('stdlib-cycles', prints=2 * n)
 
@@ -682,6 +725,7 @@ def check_c14(chk, args):
     commented_scenarios(chk)
     pair_faults(chk, trees[:: 3 if q else 1])
     depth_faults(chk, trees[1:: 4 if q else 1])
+    odd_printers(chk)
     chk.cov['traces_validated_against_impl'] = len(cases)
     chk.cov['rule'] = ('trees / DAGs (<= 6 nodes) of instrumented user objects printed with pretty_call, nested in lists and '
                        'dicts, with and without trailing_comment wrappers, printers that do / do not accept '
@@ -842,6 +886,106 @@ def depth_faults(chk, trees):
                 chk.nontrivial(('depth-fault', repr(g), depth, fault))
     chk.cov['evaluations'] += n
     chk.stage('faults under a depth limit', executions=n)
+
+
+def odd_printers(chk):
+    """register_pretty accepts any callable with the right signature: a failing printer that is a callable object, a
+    functools.partial, a bound method or a lambda is contained like a failing function (the value alone falls back
+    to its repr, a warning that identifies the printer is issued, pformat returns, at the top level too)."""
+    import functools
+
+    class CallablePrinter:
+        def __call__(self, value, ctx):
+            raise ValueError('boom')
+
+    class Owner:
+        def method_printer(self, value, ctx):
+            raise KeyError('k')
+
+    def with_extra(value, ctx, extra):
+        raise TypeError('t')
+    printers = {
+        'callable object': (CallablePrinter(), 'CallablePrinter'),
+        'functools.partial': (functools.partial(with_extra, extra=1), 'with_extra'),
+        'bound method': (Owner().method_printer, 'method_printer'),
+        'lambda': ((lambda value, ctx: 1 // 0), 'lambda'),
+    }
+    n = 0
+    for kind, (printer, ident) in printers.items():
+        cls = type('OddlyPrinted', (), {'__repr__': lambda self: 'ODD_REPR'})
+        try:
+            P.register_pretty(cls)(printer)
+        except Exception as e:  # noqa
+            chk.violation('C14.contained', 'register_pretty rejected a %s as a printer: %r' % (kind, e), {'printer': kind})
+            continue
+        for where, mk, want in (('top level', lambda: cls(), 'ODD_REPR'), ('list element', lambda: [1, cls(), 2], '[1, ODD_REPR, 2]'),
+                                ('dict value', lambda: {'k': cls()}, "{'k': ODD_REPR}")):
+            n += 1
+            desc = {'printer': kind, 'position': where}
+            try:
+                with warnings.catch_warnings(record=True) as wl:
+                    warnings.simplefilter('always')
+                    with common.time_limit(20):
+                        out = P.pformat(mk())
+            except (Exception, common.Timeout) as e:  # noqa
+                chk.violation('C14.contained', 'a failing printer that is a %s (%s) escaped from pformat as %r'
+                              % (kind, where, e), desc)
+                continue
+            msgs = [str(w.message) for w in wl if 'raised an exception' in str(w.message)]
+            if out != want:
+                chk.violation('C14.others-unchanged', 'failing printer (%s) at %s: output %r, expected %r' % (kind, where, out, want),
+                              dict(desc, output=out))
+            if len(msgs) != 1 or ident not in msgs[0].split('\n')[0]:
+                chk.violation('C14.warning', 'failing printer (%s) at %s: expected one warning identifying the printer (%s), got %r'
+                              % (kind, where, ident, [m.split('\n')[0][:200] for m in msgs]), desc)
+            chk.nontrivial(('odd-printer', kind, where))
+        registry_cleanup(cls)
+    # values whose repr is not their own: subclasses of dict / list / tuple that inherit __repr__ (insertion order
+    # that is not sorted order, nested instances, a self-referential one) - 'rendered with its repr' means repr(value)
+    def failing(value, ctx):
+        raise RuntimeError('fails')
+
+    class Table(dict):
+        pass
+
+    class Row(list):
+        pass
+
+    class Pt(tuple):
+        pass
+    for cls in (Table, Row, Pt):
+        P.register_pretty(cls)(failing)
+    selfref = Row([1])
+    selfref.append(selfref)
+    samples = [Table(zeta=1, alpha=2, mid=Table(b=1, a=2)), Row([Table(z=0, y=1), 3]), Pt((Table(q=1, p=2), 'x')), selfref,
+               Table({2: 'b', 1: 'a', 'k': Row([3, 2, 1])})]
+    for v in samples:
+        for where, mk in (('top level', lambda: v), ('list element', lambda: [0, v]), ('dict value', lambda: {'k': v})):
+            n += 1
+            desc = {'value': repr(v), 'position': where}
+            try:
+                with warnings.catch_warnings(record=True) as wl:
+                    warnings.simplefilter('always')
+                    with common.time_limit(20):
+                        out = P.pformat(mk(), width=200)
+            except (Exception, common.Timeout) as e:  # noqa
+                chk.violation('C14.contained', 'a failing printer for %r escaped from pformat as %r' % (v, e), desc)
+                continue
+            want = {'top level': repr(v), 'list element': '[0, %r]' % (v,), 'dict value': "{'k': %r}" % (v,)}[where]
+            if out != want:
+                chk.violation('C14.others-unchanged', 'failing printer for a %s instance (%s): output %r, expected its repr %r'
+                              % (type(v).__name__, where, out, want), dict(desc, output=out))
+            chk.nontrivial(('inherited-repr', repr(v), where))
+    for cls in (Table, Row, Pt):
+        registry_cleanup(cls)
+    chk.cov['evaluations'] += n
+    chk.stage('odd printers', executions=n)
+
+
+def registry_cleanup(cls):
+    from checks.registry import registry_dict
+    registry_dict().pop(cls, None)
+    PP.pretty_dispatch._clear_cache()
 
 
 def pair_faults(chk, trees):
